@@ -840,9 +840,28 @@ func (q *checker) bcheckWhile(n *a.While) error {
 		}
 	}
 
-	// Check the while condition.
+	// Check the while condition, as evaluated on entry.
 	if _, err := q.bcheckExpr(n.Condition(), 0); err != nil {
 		return err
+	}
+
+	// Check the while condition again, as evaluated before every later
+	// iteration, when only the pre and inv conditions are known to hold. This
+	// second pass also leaves the more conservative bounds in the condition's
+	// expression tree.
+	if cv := n.Condition().ConstValue(); cv == nil {
+		entryFacts := append(facts(nil), q.facts...)
+		q.facts = q.facts[:0]
+		for _, o := range n.Asserts() {
+			if o.AsAssert().Keyword() == t.IDPost {
+				continue
+			}
+			q.facts.appendFact(o.AsAssert().Condition())
+		}
+		if _, err := q.bcheckExpr(n.Condition(), 0); err != nil {
+			return err
+		}
+		q.facts = append(q.facts[:0], entryFacts...)
 	}
 
 	// Check the post conditions on exit, assuming only the pre and inv
